@@ -27,7 +27,9 @@ theorem load_arena_dump (t : Val) (hwf : t.WF) (hobj : t.isObj = true) :
     loadArena (dump t) = some (seg t none 0) := by
   rw [dump_eq_flat]; exact loadArena_flat t hwf hobj
 
-/-- **load ∘ dump**: for every well-formed tree (typed, commented, with meta — also Expression-valued meta —, nested
+/-- (what `norm` erases — `None`-valued args, `[]` args, `comments == []` — is observable only through a reader that tells
+    presence from absence: see `empty_vs_absent_readers_audited`, on which the reading "reproduces the tree" depends.)
+    **load ∘ dump**: for every well-formed tree (typed, commented, with meta — also Expression-valued meta —, nested
     lists, `False` vs absent …) loading its dump succeeds and reads back the tree, up to `norm` -/
 theorem load_dump (t : Val) (hwf : t.WF) (hobj : t.isObj = true) : load (dump t) = some (some t.norm) := by
   rw [dump_eq_flat]; exact load_flat_root t hwf hobj
@@ -323,6 +325,37 @@ def auditedCastTypeReads : List String :=
 theorem cast_type_reads_audited :
     SqlglotModel.Generated.C12.castTypeReads = auditedCastTypeReads ∧
     SqlglotModel.Generated.C12.castIsTypeUsesTo = true := by
+  decide +kernel
+
+/-- the audited sites that tell an arg PRESENT with `None` / `[]` from an ABSENT one.  `dump` records neither, `load ∘ dump`
+    is the identity only up to `norm` (`load_dump`), and `norm`'s erasure is unobservable exactly as long as no reader makes
+    that distinction.  **The soundness of reading `load_dump` as "reproduces the tree" rests on this table.**  Audited:
+    * `'expressions' in expression.args` (generator.py and snowflake.py `dynamicidentifier_sql`): OBSERVABLE — known finding
+      C12-empty-call-args-lost-dynamicidentifier (`IDENTIFIER('f')()` loses its call after a round trip);
+    * tableau `strposition_sql` now tests the VALUE of a non-list arg (`args.get('occurrence') is not None`; repaired in
+      /repo 8ff675e, formerly `'occurrence' in expression.args`, finding C12-none-arg-key-read-by-tableau-strposition):
+      `None` and absence coincide, harmless;
+    * `expression.args.get('values') is not None` (generator.py `datatype_sql`): a list arg, but no parser stores `values=[]`
+      (empty-list corpus, all dialects);
+    * the remaining `… is None` / `is not None` tests read non-list args, for which `None` and absence coincide. -/
+def auditedEmptyVsAbsentReaders : List String :=
+  ["sqlglot/generator.py:datatype_sql:expression.args.get('values') is not None",
+   "sqlglot/generator.py:dynamicidentifier_sql:'expressions' in expression.args",
+   "sqlglot/generator.py:join_sql:this.args.get('cross_apply') is not None",
+   "sqlglot/generators/duckdb.py:_scale_rounding_sql:expression.args.get('to') is not None",
+   "sqlglot/generators/postgres.py:lateral_sql:expression.args.get('cross_apply') is not None",
+   "sqlglot/generators/snowflake.py:dynamicidentifier_sql:'expressions' in expression.args",
+   "sqlglot/generators/tableau.py:strposition_sql:expression.args.get('occurrence') is not None",
+   "sqlglot/generators/tsql.py:timefromparts_sql:expression.args.get('fractions') is None",
+   "sqlglot/generators/tsql.py:timefromparts_sql:expression.args.get('precision') is None",
+   "sqlglot/generators/tsql.py:timestampfromparts_sql:expression.args.get('milli') is None",
+   "sqlglot/optimizer/merge_subqueries.py:_mergeable:inner_select.args.get('from_') is None",
+   "sqlglot/parser.py:_parse_initcap:expr.args.get('expression') is None"]
+
+/-- obligation (finite decision on the regenerated table): no other site distinguishes an empty / `None` arg from an absent
+    one; a new such reader (e.g. rendering `()` for `Schema(expressions=[])`) breaks the build until audited -/
+theorem empty_vs_absent_readers_audited :
+    SqlglotModel.Generated.C12.emptyVsAbsentReaders = auditedEmptyVsAbsentReaders := by
   decide +kernel
 
 /-- facts re-extracted from sqlglot/serde.py and expressions/core.py on every run: the eight payload keys are pairwise
